@@ -1,5 +1,1223 @@
 /- helper lemmas for C03 -/
 import MelModel.ApplyTx
 import MelModel.Lemmas.Batch
+import MelModel.Props.C20
 namespace Mel
+namespace C3
+open Mel.Gen
+
+/-! ### generic facts -/
+
+theorem option_ext {α} {o o' : Option α} (h : ∀ c, o = some c ↔ o' = some c) : o = o' := by
+  cases o with
+  | none =>
+    cases o' with
+    | none => rfl
+    | some c => exact absurd ((h c).mpr rfl) (by simp)
+  | some c => exact ((h c).mp rfl).symm
+
+theorem max_rcomm (a b c : Nat) : max (max a b) c = max (max a c) b := by
+  omega
+
+theorem satAdd_rcomm (a b c : Nat) : satAdd128 (satAdd128 a b) c = satAdd128 (satAdd128 a c) b := by
+  simp only [satAdd128]
+  omega
+
+theorem foldl_max_perm {l l' : List Nat} (hp : l.Perm l') (init : Nat) :
+    l.foldl max init = l'.foldl max init :=
+  hp.foldl_eq' (fun x _ y _ z => max_rcomm z x y) init
+
+theorem foldl_satAdd_perm {l l' : List Nat} (hp : l.Perm l') (init : Nat) :
+    l.foldl satAdd128 init = l'.foldl satAdd128 init :=
+  hp.foldl_eq' (fun x _ y _ z => satAdd_rcomm z x y) init
+
+theorem forM'_perm {α} (f : α → Outcome Unit) {l l' : List α} (hp : l.Perm l') :
+    (Outcome.forM' f l = .ok ()) ↔ (Outcome.forM' f l' = .ok ()) := by
+  rw [Outcome.forM'_eq_ok, Outcome.forM'_eq_ok]
+  exact ⟨fun h a ha => h a (hp.mem_iff.mpr ha), fun h a ha => h a (hp.mem_iff.mp ha)⟩
+
+/-- the value of an accepted computation -/
+def valOf {β} [Inhabited β] : Outcome β → β
+  | .ok v => v
+  | _ => default
+
+/-- a fold whose acceptance does not depend on the accumulator -/
+theorem foldlM'_pure {α β γ} [Inhabited γ] (g : α → Outcome γ) (u : β → α → γ → β) :
+    ∀ (l : List α) (b r : β),
+      Outcome.foldlM' (fun b a => (g a).bind fun v => .ok (u b a v)) b l = .ok r ↔
+        (∀ a ∈ l, ∃ v, g a = .ok v) ∧ r = l.foldl (fun b a => u b a (valOf (g a))) b := by
+  intro l
+  induction l with
+  | nil =>
+    intro b r
+    rw [Outcome.foldlM'_nil_ok]
+    simp [eq_comm]
+  | cons a as ih =>
+    intro b r
+    rw [Outcome.foldlM'_cons_ok]
+    constructor
+    · rintro ⟨b', h1, h2⟩
+      rw [Outcome.bind_eq_ok] at h1
+      obtain ⟨v, hv, h1⟩ := h1
+      cases h1
+      obtain ⟨i1, i2⟩ := (ih _ _).mp h2
+      refine ⟨?_, ?_⟩
+      · intro x hx
+        rcases List.mem_cons.mp hx with rfl | hx
+        · exact ⟨v, hv⟩
+        · exact i1 x hx
+      · rw [i2, List.foldl_cons, hv]; rfl
+    · rintro ⟨h1, h2⟩
+      obtain ⟨v, hv⟩ := h1 a List.mem_cons_self
+      refine ⟨u b a v, by rw [hv]; rfl, ?_⟩
+      rw [ih]
+      refine ⟨fun x hx => h1 x (List.mem_cons_of_mem _ hx), ?_⟩
+      rw [h2, List.foldl_cons, hv]; rfl
+
+/-! ### maps built by successive `extend`s -/
+
+theorem get_foldl_extend_iff {α κ ν : Type} [DecidableEq κ] (F : α → List (κ × ν)) (k : κ) (c : ν) :
+    ∀ (l : List α) (acc : AList κ ν),
+      (∀ a ∈ l, ∀ b ∈ l, ∀ v w, AList.get (F a).reverse k = some v → AList.get (F b).reverse k = some w → a = b) →
+      (AList.get (l.foldl (fun acc a => AList.extend acc (F a)) acc) k = some c ↔
+        (∃ a ∈ l, AList.get (F a).reverse k = some c) ∨
+        ((∀ a ∈ l, AList.get (F a).reverse k = none) ∧ AList.get acc k = some c)) := by
+  intro l
+  induction l with
+  | nil => intro acc _; simp
+  | cons a rest ih =>
+    intro acc hd
+    have hd' : ∀ a ∈ rest, ∀ b ∈ rest, ∀ v w, AList.get (F a).reverse k = some v →
+        AList.get (F b).reverse k = some w → a = b :=
+      fun x hx y hy => hd x (List.mem_cons_of_mem _ hx) y (List.mem_cons_of_mem _ hy)
+    rw [List.foldl_cons, ih _ hd', AList.get_extend]
+    constructor
+    · rintro (⟨b, hb, h⟩ | ⟨hall, h⟩)
+      · exact Or.inl ⟨b, List.mem_cons_of_mem _ hb, h⟩
+      · cases ha : AList.get (F a).reverse k with
+        | some v =>
+          rw [ha] at h
+          simp only [Option.some.injEq] at h; subst h
+          exact Or.inl ⟨a, List.mem_cons_self, ha⟩
+        | none =>
+          rw [ha] at h
+          refine Or.inr ⟨?_, h⟩
+          intro x hx
+          rcases List.mem_cons.mp hx with rfl | hx
+          · exact ha
+          · exact hall x hx
+    · rintro (⟨b, hb, h⟩ | ⟨hall, h⟩)
+      · rcases List.mem_cons.mp hb with rfl | hb
+        · by_cases hex : ∃ b' ∈ rest, ∃ w, AList.get (F b').reverse k = some w
+          · obtain ⟨b', hb', w, hw⟩ := hex
+            have : b' = b := hd b' (List.mem_cons_of_mem _ hb') b List.mem_cons_self w c hw h
+            subst this
+            exact Or.inl ⟨b', hb', h⟩
+          · refine Or.inr ⟨?_, by rw [h]⟩
+            intro x hx
+            cases hg : AList.get (F x).reverse k with
+            | none => rfl
+            | some w => exact absurd ⟨x, hx, w, hg⟩ hex
+        · exact Or.inl ⟨b, hb, h⟩
+      · refine Or.inr ⟨fun x hx => hall x (List.mem_cons_of_mem _ hx), ?_⟩
+        rw [hall a List.mem_cons_self]; exact h
+
+/-! ### `bytesLt` is a strict total order (same proofs as in Lemmas/Restart.lean, which cannot be imported) -/
+
+theorem bytesLt_cons (a b : UInt8) (as bs : List UInt8) :
+    bytesLt (a :: as) (b :: bs) =
+      if a.toNat < b.toNat then true else if b.toNat < a.toNat then false else bytesLt as bs := by
+  simp [bytesLt, UInt8.lt_iff_toNat_lt]
+
+theorem bytesLt_irrefl (a : List UInt8) : bytesLt a a = false := by
+  induction a with
+  | nil => rfl
+  | cons x xs ih => rw [bytesLt_cons]; simp [ih]
+
+theorem bytesLt_trans : ∀ (a b c : List UInt8),
+    bytesLt a b = true → bytesLt b c = true → bytesLt a c = true
+  | [], [], _, h, _ => by simp [bytesLt] at h
+  | [], _ :: _, [], _, h => by simp [bytesLt] at h
+  | [], _ :: _, _ :: _, _, _ => by simp [bytesLt]
+  | _ :: _, [], _, h, _ => by simp [bytesLt] at h
+  | _ :: _, _ :: _, [], _, h => by simp [bytesLt] at h
+  | a :: as, b :: bs, c :: cs, h1, h2 => by
+    have ih := bytesLt_trans as bs cs
+    rw [bytesLt_cons] at h1 h2 ⊢
+    by_cases hab : a.toNat < b.toNat
+    · by_cases hbc : b.toNat < c.toNat
+      · rw [if_pos (by omega)]
+      · rw [if_neg hbc] at h2
+        by_cases hcb : c.toNat < b.toNat
+        · rw [if_pos hcb] at h2; cases h2
+        · rw [if_pos (by omega)]
+    · rw [if_neg hab] at h1
+      by_cases hba : b.toNat < a.toNat
+      · rw [if_pos hba] at h1; cases h1
+      · rw [if_neg hba] at h1
+        by_cases hbc : b.toNat < c.toNat
+        · rw [if_pos (by omega)]
+        · rw [if_neg hbc] at h2
+          by_cases hcb : c.toNat < b.toNat
+          · rw [if_pos hcb] at h2; cases h2
+          · rw [if_neg hcb] at h2
+            rw [if_neg (by omega), if_neg (by omega)]
+            exact ih h1 h2
+
+theorem bytesLt_asymm (a b : List UInt8) (h : bytesLt a b = true) : bytesLt b a = false := by
+  cases hba : bytesLt b a with
+  | false => rfl
+  | true =>
+    have := bytesLt_trans a b a h hba
+    rw [bytesLt_irrefl] at this; cases this
+
+theorem bytesLt_total : ∀ (a b : List UInt8), bytesLt a b = false → bytesLt b a = false → a = b
+  | [], [], _, _ => rfl
+  | [], _ :: _, h, _ => by simp [bytesLt] at h
+  | _ :: _, [], _, h => by simp [bytesLt] at h
+  | a :: as, b :: bs, h1, h2 => by
+    rw [bytesLt_cons] at h1 h2
+    by_cases hab : a.toNat < b.toNat
+    · rw [if_pos hab] at h1; cases h1
+    · by_cases hba : b.toNat < a.toNat
+      · rw [if_pos hba] at h2; cases h2
+      · rw [if_neg hab, if_neg hba] at h1
+        rw [if_neg hba, if_neg hab] at h2
+        have : a = b := UInt8.toNat_inj.mp (by omega)
+        rw [this, bytesLt_total as bs h1 h2]
+
+theorem bytesLt_ne {a b : List UInt8} (h : bytesLt a b = true) : a ≠ b := by
+  intro e; subst e; rw [bytesLt_irrefl] at h; cases h
+
+/-! ### the sorted transaction set -/
+
+/-- strictly increasing hashes -/
+def TxLt (a b : Tx) : Prop := bytesLt a.hash b.hash = true
+
+theorem TxLt.trans {a b c : Tx} (h1 : TxLt a b) (h2 : TxLt b c) : TxLt a c :=
+  bytesLt_trans _ _ _ h1 h2
+
+theorem mem_insertTx_imp {l : List Tx} {tx x : Tx} (h : x ∈ State.insertTx l tx) : x = tx ∨ x ∈ l := by
+  induction l with
+  | nil => simp [State.insertTx] at h; exact Or.inl h
+  | cons t rest ih =>
+    unfold State.insertTx at h
+    split at h
+    · rcases List.mem_cons.mp h with h | h
+      · exact Or.inl h
+      · exact Or.inr (List.mem_cons_of_mem _ h)
+    · split at h
+      · rcases List.mem_cons.mp h with h | h
+        · exact Or.inl h
+        · exact Or.inr h
+      · rcases List.mem_cons.mp h with h | h
+        · exact Or.inr (h ▸ List.mem_cons_self)
+        · rcases ih h with h | h
+          · exact Or.inl h
+          · exact Or.inr (List.mem_cons_of_mem _ h)
+
+theorem insertTx_sorted {l : List Tx} (tx : Tx) (hl : l.Pairwise TxLt) :
+    (State.insertTx l tx).Pairwise TxLt := by
+  induction l with
+  | nil => simp [State.insertTx]
+  | cons t rest ih =>
+    rw [List.pairwise_cons] at hl
+    obtain ⟨h1, h2⟩ := hl
+    unfold State.insertTx
+    split
+    · rename_i he
+      rw [List.pairwise_cons]
+      refine ⟨fun y hy => ?_, h2⟩
+      have := h1 y hy
+      simp only [TxLt] at this ⊢
+      rw [← he]; exact this
+    · rename_i hne
+      split
+      · rename_i hlt
+        rw [List.pairwise_cons]
+        refine ⟨fun y hy => ?_, List.pairwise_cons.mpr ⟨h1, h2⟩⟩
+        rcases List.mem_cons.mp hy with rfl | hy
+        · exact hlt
+        · exact TxLt.trans hlt (h1 y hy)
+      · rename_i hnlt
+        rw [List.pairwise_cons]
+        refine ⟨fun y hy => ?_, ih h2⟩
+        rcases mem_insertTx_imp hy with rfl | hy
+        · cases hb : bytesLt t.hash y.hash with
+          | true => exact hb
+          | false =>
+            have hf : bytesLt y.hash t.hash = false := by simpa using hnlt
+            exact absurd (bytesLt_total _ _ hb hf) hne
+        · exact h1 y hy
+
+theorem mem_insertTx_iff {l : List Tx} (tx x : Tx) (hl : l.Pairwise TxLt) :
+    x ∈ State.insertTx l tx ↔ x = tx ∨ (x ∈ l ∧ x.hash ≠ tx.hash) := by
+  induction l with
+  | nil => simp [State.insertTx]
+  | cons t rest ih =>
+    rw [List.pairwise_cons] at hl
+    obtain ⟨h1, h2⟩ := hl
+    unfold State.insertTx
+    split
+    · rename_i he
+      rw [List.mem_cons, List.mem_cons]
+      constructor
+      · rintro (h | h)
+        · exact Or.inl h
+        · refine Or.inr ⟨Or.inr h, ?_⟩
+          rw [← he]; exact (bytesLt_ne (h1 x h)).symm
+      · rintro (h | ⟨h, hne⟩)
+        · exact Or.inl h
+        · rcases h with rfl | h
+          · exact absurd he hne
+          · exact Or.inr h
+    · rename_i hne
+      split
+      · rename_i hlt
+        rw [List.mem_cons]
+        constructor
+        · rintro (h | h)
+          · exact Or.inl h
+          · refine Or.inr ⟨h, ?_⟩
+            rcases List.mem_cons.mp h with rfl | h
+            · exact (bytesLt_ne hlt).symm
+            · exact (bytesLt_ne (bytesLt_trans _ _ _ hlt (h1 x h))).symm
+        · rintro (h | ⟨h, _⟩)
+          · exact Or.inl h
+          · exact Or.inr h
+      · rw [List.mem_cons, ih h2, List.mem_cons]
+        constructor
+        · rintro (h | h | ⟨h, hx⟩)
+          · subst h; exact Or.inr ⟨Or.inl rfl, hne⟩
+          · exact Or.inl h
+          · exact Or.inr ⟨Or.inr h, hx⟩
+        · rintro (h | ⟨h | h, hx⟩)
+          · exact Or.inr (Or.inl h)
+          · exact Or.inl h
+          · exact Or.inr (Or.inr ⟨h, hx⟩)
+
+theorem foldl_insertTx_spec (l : List Tx) :
+    ∀ (acc : List Tx), acc.Pairwise TxLt → (l.map (·.hash)).Nodup →
+      (l.foldl State.insertTx acc).Pairwise TxLt ∧
+      ∀ x, x ∈ l.foldl State.insertTx acc ↔ x ∈ l ∨ (x ∈ acc ∧ ∀ y ∈ l, y.hash ≠ x.hash) := by
+  induction l with
+  | nil => intro acc ha _; simp [ha]
+  | cons a rest ih =>
+    intro acc ha hn
+    simp only [List.map_cons, List.nodup_cons] at hn
+    obtain ⟨i1, i2⟩ := ih (State.insertTx acc a) (insertTx_sorted a ha) hn.2
+    rw [List.foldl_cons]
+    refine ⟨i1, fun x => ?_⟩
+    rw [i2 x, mem_insertTx_iff a x ha, List.mem_cons]
+    constructor
+    · rintro (h | ⟨h | ⟨h, hx⟩, hall⟩)
+      · exact Or.inl (Or.inr h)
+      · exact Or.inl (Or.inl h)
+      · refine Or.inr ⟨h, ?_⟩
+        intro y hy
+        rcases List.mem_cons.mp hy with rfl | hy
+        · exact fun e => hx e.symm
+        · exact hall y hy
+    · rintro ((h | h) | ⟨h, hall⟩)
+      · subst h
+        refine Or.inr ⟨Or.inl rfl, ?_⟩
+        intro y hy e
+        exact hn.1 (List.mem_map.mpr ⟨y, hy, e⟩)
+      · exact Or.inl h
+      · refine Or.inr ⟨Or.inr ⟨h, fun e => hall a List.mem_cons_self e.symm⟩, ?_⟩
+        exact fun y hy => hall y (List.mem_cons_of_mem _ hy)
+
+theorem sorted_ext : ∀ (l₁ l₂ : List Tx), l₁.Pairwise TxLt → l₂.Pairwise TxLt →
+    (∀ x, x ∈ l₁ ↔ x ∈ l₂) → l₁ = l₂
+  | [], [], _, _, _ => rfl
+  | [], b :: _, _, _, h => by have := (h b).mpr List.mem_cons_self; simp at this
+  | a :: _, [], _, _, h => by have := (h a).mp List.mem_cons_self; simp at this
+  | a :: as, b :: bs, h1, h2, h => by
+    rw [List.pairwise_cons] at h1 h2
+    have am : a ∈ b :: bs := (h a).mp List.mem_cons_self
+    have bm : b ∈ a :: as := (h b).mpr List.mem_cons_self
+    have ab : a = b := by
+      rcases List.mem_cons.mp am with e | am
+      · exact e
+      · rcases List.mem_cons.mp bm with e | bm
+        · exact e.symm
+        · have x1 : TxLt a b := h1.1 b bm
+          have x2 : TxLt b a := h2.1 a am
+          have := bytesLt_asymm _ _ x1
+          simp only [TxLt] at x2
+          rw [x2] at this; cases this
+    subst ab
+    have hirr : ∀ y, TxLt a y → y ≠ a := by
+      intro y hy e; subst e
+      simp only [TxLt] at hy
+      rw [bytesLt_irrefl] at hy; cases hy
+    have : as = bs := by
+      apply sorted_ext as bs h1.2 h2.2
+      intro x
+      constructor
+      · intro hx
+        rcases List.mem_cons.mp ((h x).mp (List.mem_cons_of_mem _ hx)) with e | h'
+        · exact absurd e (hirr x (h1.1 x hx))
+        · exact h'
+      · intro hx
+        rcases List.mem_cons.mp ((h x).mpr (List.mem_cons_of_mem _ hx)) with e | h'
+        · exact absurd e (hirr x (h2.1 x hx))
+        · exact h'
+    rw [this]
+
+theorem foldl_insertTx_perm {base l l' : List Tx} (hp : l.Perm l') (hs : base.Pairwise TxLt)
+    (hu : (l.map (·.hash)).Nodup) : l.foldl State.insertTx base = l'.foldl State.insertTx base := by
+  have hu' : (l'.map (·.hash)).Nodup := (hp.map _).nodup_iff.mp hu
+  obtain ⟨a1, a2⟩ := foldl_insertTx_spec l base hs hu
+  obtain ⟨b1, b2⟩ := foldl_insertTx_spec l' base hs hu'
+  apply sorted_ext _ _ a1 b1
+  intro x
+  rw [a2, b2]
+  constructor
+  · rintro (h | ⟨h, hall⟩)
+    · exact Or.inl (hp.mem_iff.mp h)
+    · exact Or.inr ⟨h, fun y hy => hall y (hp.mem_iff.mpr hy)⟩
+  · rintro (h | ⟨h, hall⟩)
+    · exact Or.inl (hp.mem_iff.mpr h)
+    · exact Or.inr ⟨h, fun y hy => hall y (hp.mem_iff.mp hy)⟩
+
+/-! ### phase 1: `loadRelevantCoins` -/
+
+/-- distinct transactions of the batch have distinct hashes -/
+def HashInj (txs : List Tx) : Prop := ∀ a ∈ txs, ∀ b ∈ txs, a.hash = b.hash → a = b
+
+theorem hashInj_of_nodup : ∀ {txs : List Tx}, (txs.map (·.hash)).Nodup → HashInj txs
+  | [], _ => by intro a ha; cases ha
+  | t :: rest, h => by
+    simp only [List.map_cons, List.nodup_cons] at h
+    intro a ha b hb e
+    rcases List.mem_cons.mp ha with ha1 | ha1 <;> rcases List.mem_cons.mp hb with hb1 | hb1
+    · rw [ha1, hb1]
+    · have : t.hash ∈ rest.map (·.hash) := List.mem_map.mpr ⟨b, hb1, by rw [← e, ha1]⟩
+      exact absurd this h.1
+    · have : t.hash ∈ rest.map (·.hash) := List.mem_map.mpr ⟨a, ha1, by rw [e, hb1]⟩
+      exact absurd this h.1
+    · exact hashInj_of_nodup h.2 a ha1 b hb1 e
+
+theorem HashInj.perm {txs txs' : List Tx} (hp : txs.Perm txs') (h : HashInj txs) : HashInj txs' :=
+  fun a ha b hb => h a (hp.mem_iff.mpr ha) b (hp.mem_iff.mpr hb)
+
+theorem outGet_txhash {tx : Tx} {h : Nat} {k : CoinID} {c : CoinDataHeight}
+    (hg : AList.get (outputCoinsFromTx tx h).reverse k = some c) : k.txhash = tx.hash := by
+  have := List.mem_reverse.mp (AList.mem_of_get_eq_some hg)
+  obtain ⟨i, o, -, hk, -⟩ := mem_outputCoinsFromTx this
+  rw [hk]
+
+theorem createdOf_get_iff {height : Nat} {txs : List Tx} (hinj : HashInj txs) (k : CoinID)
+    (c : CoinDataHeight) :
+    (createdOf height txs).get k = some c ↔
+      ∃ tx ∈ txs, AList.get (outputCoinsFromTx tx height).reverse k = some c := by
+  unfold createdOf
+  rw [get_foldl_extend_iff (fun tx => outputCoinsFromTx tx height) k c txs [] ?_]
+  · simp [AList.get]
+  · intro a ha b hb v w h1 h2
+    exact hinj a ha b hb ((outGet_txhash h1).symm.trans (outGet_txhash h2))
+
+theorem createdOf_perm {height : Nat} {txs txs' : List Tx} (hp : txs.Perm txs') (hinj : HashInj txs)
+    (k : CoinID) : (createdOf height txs').get k = (createdOf height txs).get k := by
+  apply option_ext
+  intro c
+  rw [createdOf_get_iff hinj, createdOf_get_iff (hinj.perm hp)]
+  exact ⟨fun ⟨t, ht, h⟩ => ⟨t, hp.mem_iff.mpr ht, h⟩, fun ⟨t, ht, h⟩ => ⟨t, hp.mem_iff.mp ht, h⟩⟩
+
+/-- a created coin belongs to a transaction of the batch -/
+theorem createdOf_txhash {height : Nat} {txs : List Tx} {k : CoinID} {c : CoinDataHeight}
+    (h : (createdOf height txs).get k = some c) : ∃ tx ∈ txs, k.txhash = tx.hash := by
+  obtain ⟨tx, htx, hm⟩ := createdOf_get_some h
+  obtain ⟨i, o, -, hk, -⟩ := mem_outputCoinsFromTx hm
+  exact ⟨tx, htx, by rw [hk]⟩
+
+theorem diskFold_get (created : Relevant) (coins : CoinMap) (l : List CoinID) :
+    ∀ (acc disk : Relevant), Outcome.foldlM' (diskStep created coins) acc l = .ok disk →
+      ∀ k, disk.get k = if k ∈ l ∧ created.get k = none then coins.getCoin k else acc.get k := by
+  induction l with
+  | nil => intro acc disk h k; rw [Outcome.foldlM'_nil_ok] at h; subst h; simp
+  | cons inp rest ih =>
+    intro acc disk h k
+    rw [Outcome.foldlM'_cons_ok] at h
+    obtain ⟨acc1, h1, h2⟩ := h
+    rw [ih acc1 disk h2 k]
+    rcases diskStep_ok h1 with ⟨hc, rfl⟩ | ⟨hn, c0, hcoin, rfl⟩
+    · by_cases hk : k = inp
+      · subst hk
+        have hne : created.get k ≠ none := by
+          intro h0; simp [AList.contains, h0] at hc
+        simp [hne]
+      · simp [hk]
+    · by_cases hk : k = inp
+      · subst hk
+        simp [hn, hcoin, AList.get_set_self]
+      · simp [hk, AList.get_set_ne _ _ hk]
+
+theorem diskFold_ok_of (created : Relevant) (coins : CoinMap) (l : List CoinID) :
+    (∀ inp ∈ l, (coins.getCoin inp).isSome ∨ (created.get inp).isSome) →
+    ∀ acc : Relevant, ∃ disk, Outcome.foldlM' (diskStep created coins) acc l = .ok disk := by
+  induction l with
+  | nil => intro _ acc; exact ⟨acc, rfl⟩
+  | cons inp rest ih =>
+    intro h acc
+    have hrest := ih (fun x hx => h x (List.mem_cons_of_mem _ hx))
+    by_cases hc : created.contains inp = true
+    · obtain ⟨disk, hd⟩ := hrest acc
+      refine ⟨disk, ?_⟩
+      rw [Outcome.foldlM'_cons_ok]
+      exact ⟨acc, by simp [diskStep, hc], hd⟩
+    · have hcoin : (coins.getCoin inp).isSome := by
+        rcases h inp List.mem_cons_self with h1 | h1
+        · exact h1
+        · exact absurd h1 hc
+      obtain ⟨c, hcc⟩ := Option.isSome_iff_exists.mp hcoin
+      obtain ⟨disk, hd⟩ := hrest (acc.set inp c)
+      refine ⟨disk, ?_⟩
+      rw [Outcome.foldlM'_cons_ok]
+      exact ⟨acc.set inp c, by simp [diskStep, hc, hcc], hd⟩
+
+theorem loadRel_ok_of {s : State} {txs : List Tx}
+    (hwf : ∀ tx ∈ txs, tx.isWellFormed = true ∧ tx.melTotalFits = true)
+    (hnd : (txs.flatMap (·.inputs)).Nodup)
+    (hin : ∀ inp ∈ txs.flatMap (·.inputs),
+      (s.coins.getCoin inp).isSome ∨ ((createdOf s.height txs).get inp).isSome) :
+    ∃ rel, loadRelevantCoins s txs = .ok rel := by
+  rw [loadRelevantCoins_eq]
+  have hall : (txs.all fun tx => tx.isWellFormed && tx.melTotalFits) = true := by
+    rw [List.all_eq_true]; intro tx htx; simp [hwf tx htx]
+  obtain ⟨disk, hd⟩ := diskFold_ok_of _ _ _ hin []
+  rw [hall, hd]
+  simp [Outcome.bind, hnd]
+
+/-- the lookup function of the relevant-coin map -/
+def relSpec (created : Relevant) (coins : CoinMap) (inputs : List CoinID) (k : CoinID) :
+    Option CoinDataHeight :=
+  match created.get k with
+  | some c => some c
+  | none => if k ∈ inputs then coins.getCoin k else none
+
+theorem loadRel_get {s : State} {txs : List Tx} {rel : Relevant} (h : loadRelevantCoins s txs = .ok rel)
+    (k : CoinID) :
+    rel.get k = relSpec (createdOf s.height txs) s.coins (txs.flatMap (·.inputs)) k := by
+  rw [loadRelevantCoins_eq] at h
+  split at h
+  · cases h
+  · rw [Outcome.bind_eq_ok] at h
+    obtain ⟨disk, hd, h⟩ := h
+    split at h
+    · cases h
+      rw [AList.get_extend, List.reverse_reverse, diskFold_get _ _ _ _ _ hd k]
+      unfold relSpec
+      cases hc : (createdOf s.height txs).get k with
+      | none =>
+        by_cases hk : k ∈ txs.flatMap (·.inputs)
+        · simp only [hk, and_self, if_true]
+          cases s.coins.getCoin k <;> rfl
+        · simp [hk, AList.get]
+      | some c => simp [AList.get]
+    · cases h
+
+theorem loadRel_perm {s : State} {txs txs' : List Tx} {rel : Relevant} (hp : txs.Perm txs')
+    (hinj : HashInj txs) (h : loadRelevantCoins s txs = .ok rel) :
+    ∃ rel', loadRelevantCoins s txs' = .ok rel' ∧ ∀ k, rel'.get k = rel.get k := by
+  obtain ⟨hwf, hnd, hin, -, -⟩ := loadRelevantCoins_ok h
+  have hpi : (txs.flatMap (·.inputs)).Perm (txs'.flatMap (·.inputs)) := hp.flatMap_right _
+  obtain ⟨rel', h'⟩ := loadRel_ok_of (s := s) (txs := txs')
+    (fun tx htx => hwf tx (hp.mem_iff.mpr htx)) (hpi.nodup_iff.mp hnd)
+    (fun inp hi => by
+      rw [createdOf_perm hp hinj]
+      exact hin inp (hpi.mem_iff.mpr hi))
+  refine ⟨rel', h', fun k => ?_⟩
+  rw [loadRel_get h, loadRel_get h']
+  unfold relSpec
+  rw [createdOf_perm hp hinj]
+  have : k ∈ txs'.flatMap (·.inputs) ↔ k ∈ txs.flatMap (·.inputs) := hpi.mem_iff.symm
+  simp only [this]
+
+/-! ### phase 2: `loadStakeInfo` -/
+
+/-- what one transaction contributes to `load_stake_info` -/
+def stakeRes (s : State) (tx : Tx) : Outcome (Option StakeDoc) :=
+  if tx.kind ≠ .stake then .ok none
+  else if legacyStakeReg s then .ok none
+  else match tx.stakeDoc with
+    | none => .reject .malformedTx
+    | some d =>
+      match tx.outputs with
+      | [] => .reject .malformedTx
+      | first :: _ =>
+        if first.denom ≠ .sym then .reject .malformedTx
+        else if stakeIsConsistent d s.epoch first then .ok (some d)
+        else .ok none
+
+def stakeEntries (o : Option StakeDoc) (tx : Tx) : List (Hash × StakeDoc) :=
+  match o with
+  | some d => [(tx.hash, d)]
+  | none => []
+
+theorem loadStakeInfo_eq' (s : State) (txs : List Tx) :
+    loadStakeInfo s txs = Outcome.foldlM' (fun acc tx =>
+      (stakeRes s tx).bind fun o => .ok (AList.extend acc (stakeEntries o tx))) [] txs := by
+  unfold loadStakeInfo
+  congr 1
+  funext acc tx
+  unfold stakeRes
+  by_cases hk : tx.kind ≠ .stake
+  · simp only [if_pos hk]; rfl
+  · by_cases hl : legacyStakeReg s = true
+    · simp only [if_neg hk, if_pos hl]; rfl
+    · simp only [if_neg hk, if_neg hl]
+      cases tx.stakeDoc with
+      | none => rfl
+      | some d =>
+        cases tx.outputs with
+        | nil => rfl
+        | cons first rest =>
+          simp only
+          by_cases hden : first.denom ≠ .sym
+          · simp only [if_pos hden]; rfl
+          · simp only [if_neg hden]
+            by_cases hc : stakeIsConsistent d s.epoch first = true
+            · simp only [if_pos hc]; rfl
+            · simp only [if_neg hc]; rfl
+
+theorem stakeEntries_key {o : Option StakeDoc} {tx : Tx} {k : Hash} {v : StakeDoc}
+    (h : AList.get (stakeEntries o tx).reverse k = some v) : k = tx.hash := by
+  cases o with
+  | none => simp [stakeEntries, AList.get] at h
+  | some d =>
+    simp only [stakeEntries, List.reverse_cons, List.reverse_nil, List.nil_append, AList.get_cons] at h
+    split at h
+    · rename_i e; exact e.symm
+    · simp [AList.get] at h
+
+theorem loadStake_perm {s : State} {txs txs' : List Tx} {ns : AList Hash StakeDoc} (hp : txs.Perm txs')
+    (hinj : HashInj txs) (h : loadStakeInfo s txs = .ok ns) :
+    ∃ ns', loadStakeInfo s txs' = .ok ns' ∧ ∀ k, ns'.get k = ns.get k := by
+  rw [loadStakeInfo_eq', foldlM'_pure] at h
+  obtain ⟨h1, h2⟩ := h
+  refine ⟨txs'.foldl (fun b a => AList.extend b (stakeEntries (valOf (stakeRes s a)) a)) [], ?_, ?_⟩
+  · rw [loadStakeInfo_eq', foldlM'_pure]
+    exact ⟨fun a ha => h1 a (hp.mem_iff.mpr ha), rfl⟩
+  · intro k
+    apply option_ext
+    intro c
+    have hd : ∀ l : List Tx, HashInj l → ∀ a ∈ l, ∀ b ∈ l, ∀ v w,
+        AList.get (stakeEntries (valOf (stakeRes s a)) a).reverse k = some v →
+        AList.get (stakeEntries (valOf (stakeRes s b)) b).reverse k = some w → a = b := by
+      intro l hl a ha b hb v w e1 e2
+      exact hl a ha b hb ((stakeEntries_key e1).symm.trans (stakeEntries_key e2))
+    rw [h2, get_foldl_extend_iff (fun tx => stakeEntries (valOf (stakeRes s tx)) tx) k c txs' [] (hd _ (hinj.perm hp)),
+      get_foldl_extend_iff (fun tx => stakeEntries (valOf (stakeRes s tx)) tx) k c txs [] (hd _ hinj)]
+    simp only [AList.get, and_false, or_false, reduceCtorEq]
+    exact ⟨fun ⟨t, ht, h⟩ => ⟨t, hp.mem_iff.mpr ht, h⟩, fun ⟨t, ht, h⟩ => ⟨t, hp.mem_iff.mp ht, h⟩⟩
+
+/-! ### phases 3 and 4: validity checks and the speed fold -/
+
+theorem checkTxValidity_congr (env : Env) (s : State) (lh : Header) (tx : Tx) {rel rel' : Relevant}
+    {ns ns' : AList Hash StakeDoc} (h1 : ∀ k, rel'.get k = rel.get k) (h2 : ∀ k, ns'.get k = ns.get k) :
+    checkTxValidity env s lh tx rel' ns' = checkTxValidity env s lh tx rel ns := by
+  have h3 : ∀ k, ns'.contains k = ns.contains k := fun k => by simp [AList.contains, h2]
+  simp only [checkTxValidity, h1, h3]
+
+theorem validateDoscmint_congr (env : Env) (s : State) (tx : Tx) {rel rel' : Relevant}
+    (h1 : ∀ k, rel'.get k = rel.get k) : validateDoscmint env s rel' tx = validateDoscmint env s rel tx := by
+  simp only [validateDoscmint, h1]
+
+/-- the speed one transaction demonstrates (0 for everything but DoscMint) -/
+def speedRes (env : Env) (s : State) (rel : Relevant) (tx : Tx) : Outcome Nat :=
+  if tx.kind = .doscMint then validateDoscmint env s rel tx else .ok 0
+
+/-- the speed fold of `applyBatch` -/
+def speedFold (env : Env) (s : State) (rel : Relevant) (txs : List Tx) : Outcome Nat :=
+  Outcome.foldlM' (fun (speed : Nat) (tx : Tx) =>
+      if tx.kind = .doscMint then (validateDoscmint env s rel tx).bind fun sp => .ok (max speed sp)
+      else .ok speed) s.doscSpeed txs
+
+theorem speedFold_eq (env : Env) (s : State) (rel : Relevant) (txs : List Tx) :
+    speedFold env s rel txs = Outcome.foldlM' (fun (speed : Nat) (tx : Tx) =>
+      (speedRes env s rel tx).bind fun sp => .ok (max speed sp)) s.doscSpeed txs := by
+  unfold speedFold
+  congr 1
+  funext speed tx
+  unfold speedRes
+  split
+  · rfl
+  · simp [Outcome.bind]
+
+theorem speedFold_perm {env : Env} {s : State} {rel rel' : Relevant} {txs txs' : List Tx} {r : Nat}
+    (hp : txs.Perm txs') (h1 : ∀ k, rel'.get k = rel.get k) (h : speedFold env s rel txs = .ok r) :
+    speedFold env s rel' txs' = .ok r := by
+  have hr : ∀ tx, speedRes env s rel' tx = speedRes env s rel tx := by
+    intro tx; unfold speedRes; rw [validateDoscmint_congr env s tx h1]
+  rw [speedFold_eq, foldlM'_pure] at h ⊢
+  obtain ⟨a1, a2⟩ := h
+  refine ⟨fun a ha => by rw [hr]; exact a1 a (hp.mem_iff.mpr ha), ?_⟩
+  rw [a2]
+  simp only [hr]
+  have e : ∀ l : List Tx, l.foldl (fun b a => max b (valOf (speedRes env s rel a))) s.doscSpeed =
+      (l.map fun a => valOf (speedRes env s rel a)).foldl max s.doscSpeed := by
+    intro l; rw [List.foldl_map]
+  rw [e, e]
+  exact foldl_max_perm (hp.map _) _
+
+/-! ### phase 5: `createNextState` -/
+
+theorem nodup_of_hashes : ∀ {txs : List Tx}, (txs.map (·.hash)).Nodup → txs.Nodup
+  | [], _ => List.nodup_nil
+  | t :: rest, h => by
+    simp only [List.map_cons, List.nodup_cons] at h
+    rw [List.nodup_cons]
+    refine ⟨fun hm => h.1 (List.mem_map.mpr ⟨t, hm, rfl⟩), nodup_of_hashes h.2⟩
+
+theorem tip906_eq {st s : State} (h1 : st.network = s.network) (h2 : st.height = s.height) :
+    st.tip906 = s.tip906 := by
+  simp only [State.tip906, State.tipCondition, h1, h2]
+
+/-- the faucet step of `nextStep` -/
+def fstep (env : Env) (st : State) (tx : Tx) : Outcome State :=
+  if tx.kind = .faucet then handleFaucetTx env st tx else .ok st
+
+/-- the coin map after the faucet step -/
+def fcoins (env : Env) (st : State) (tx : Tx) : CoinMap :=
+  if insertsMarker env tx = true then st.coins.insertCoin (markerOf env tx) faucetMarker st.tip906
+  else st.coins
+
+/-- what the faucet step checks -/
+def FaucetOk (env : Env) (st : State) (tx : Tx) : Prop :=
+  tx.kind = .faucet → st.coins.getCoin (markerOf env tx) = none ∧
+    (st.network = .mainnet → env.isGrandfathered tx.hash = true)
+
+theorem fstep_iff {env : Env} {st st1 : State} {tx : Tx} :
+    fstep env st tx = .ok st1 ↔ FaucetOk env st tx ∧ st1 = { st with coins := fcoins env st tx } := by
+  by_cases hk : tx.kind = .faucet
+  · simp only [fstep, if_pos hk, handleFaucetTx, FaucetOk, fcoins, insertsMarker, markerOf, faucetMarker]
+    have hgc : st.coins.getCoin ⟨env.fdp tx.hash, 0⟩ = none ∨ ∃ c, st.coins.getCoin ⟨env.fdp tx.hash, 0⟩ = some c := by
+      cases st.coins.getCoin ⟨env.fdp tx.hash, 0⟩ <;> simp
+    by_cases hb : env.isGrandfathered tx.hash = true <;> by_cases hn : st.network = .mainnet <;>
+      rcases hgc with hg | ⟨c, hg⟩ <;> simp [hn, hk, hb, hg]
+    all_goals (constructor <;> (intro h; subst h; first | rfl | (cases st; simp_all)))
+  · have hm : insertsMarker env tx = false := by simp [insertsMarker, hk]
+    have hfc : fcoins env st tx = st.coins := by simp [fcoins, hm]
+    rw [hfc]; unfold fstep; rw [if_neg hk]
+    constructor
+    · intro h; cases h; exact ⟨fun h => absurd h hk, rfl⟩
+    · rintro ⟨-, h⟩; rw [h]
+/-- removal of the inputs of one transaction -/
+def rmFold (t : Bool) (coins : CoinMap) (ids : List CoinID) : Outcome CoinMap :=
+  Outcome.foldlM' (fun (c : CoinMap) id => c.removeCoin id t) coins ids
+
+theorem rmFold_true (ids : List CoinID) : ∀ coins : CoinMap, CountsOk coins →
+    ∃ coins', rmFold true coins ids = .ok coins' ∧ CountsOk coins' := by
+  induction ids with
+  | nil => intro coins h; exact ⟨coins, rfl, h⟩
+  | cons id rest ih =>
+    intro coins h
+    obtain ⟨m1, h1, hc1⟩ := C20_remove coins id h
+    obtain ⟨m2, h2, hc2⟩ := ih m1 hc1
+    refine ⟨m2, ?_, hc2⟩
+    unfold rmFold
+    rw [Outcome.foldlM'_cons_ok]
+    exact ⟨m1, h1, h2⟩
+
+theorem rmFold_false (ids : List CoinID) : ∀ coins : CoinMap,
+    ∃ coins', rmFold false coins ids = .ok coins' ∧ coins'.counts = coins.counts := by
+  induction ids with
+  | nil => intro coins; exact ⟨coins, rfl, rfl⟩
+  | cons id rest ih =>
+    intro coins
+    obtain ⟨m2, h2, hc2⟩ := ih { coins with coins := coins.coins.del id }
+    refine ⟨m2, ?_, hc2⟩
+    unfold rmFold
+    rw [Outcome.foldlM'_cons_ok]
+    exact ⟨_, by simp [CoinMap.removeCoin], h2⟩
+
+/-- the state after one accepted step -/
+def stepResult (st : State) (tx : Tx) (coins2 : CoinMap) (mf : Nat) : State :=
+  { st with coins := coins2, tips := satAdd128 st.tips (tx.fee - mf),
+            feePool := satAdd128 st.feePool mf, txs := State.insertTx st.txs tx }
+
+theorem nextStep_iff {env : Env} {t : Bool} {st st' : State} {tx : Tx} :
+    nextStep env t st tx = .ok st' ↔
+      FaucetOk env st tx ∧ ∃ coins2 mf, rmFold t (fcoins env st tx) tx.inputs = .ok coins2 ∧
+        tx.baseFee st.feeMultiplier = .ok mf ∧ mf ≤ tx.fee ∧
+        st' = stepResult st tx coins2 mf := by
+  have e : nextStep env t st tx = (fstep env st tx).bind fun st1 =>
+      (rmFold t st1.coins tx.inputs).bind fun coins2 =>
+      (tx.baseFee st1.feeMultiplier).bind fun minFee =>
+        if tx.fee < minFee then .reject .insufficientFees
+        else .ok { st1 with coins := coins2,
+                            tips := satAdd128 st1.tips (tx.fee - minFee),
+                            feePool := satAdd128 st1.feePool minFee,
+                            txs := State.insertTx st1.txs tx } := rfl
+  rw [e]
+  simp only [Outcome.bind_eq_ok, fstep_iff]
+  constructor
+  · rintro ⟨st1, ⟨hF, rfl⟩, coins2, h2, mf, h3, h4⟩
+    split at h4
+    · cases h4
+    · rename_i hlt
+      cases h4
+      exact ⟨hF, coins2, mf, h2, h3, Nat.le_of_not_lt hlt, rfl⟩
+  · rintro ⟨hF, coins2, mf, h2, h3, hle, rfl⟩
+    refine ⟨_, ⟨hF, rfl⟩, coins2, h2, mf, h3, ?_⟩
+    rw [if_neg (Nat.not_lt.mpr hle)]
+    rfl
+
+/-- the minimum fee of a transaction at a multiplier (0 if the weight computation crashes) -/
+def feeOf (m : Nat) (tx : Tx) : Nat := valOf (tx.baseFee m)
+
+/-- everything the second pass leaves alone, and the scalars it accumulates -/
+theorem nextFold_info (env : Env) (t : Bool) : ∀ (l : List Tx) (st st' : State),
+    Outcome.foldlM' (nextStep env t) st l = .ok st' →
+    st'.network = st.network ∧ st'.height = st.height ∧ st'.feeMultiplier = st.feeMultiplier ∧
+    st'.history = st.history ∧ st'.pools = st.pools ∧ st'.stakes = st.stakes ∧
+    st'.doscSpeed = st.doscSpeed ∧
+    st'.feePool = (l.map (feeOf st.feeMultiplier)).foldl satAdd128 st.feePool ∧
+    st'.tips = (l.map fun tx => tx.fee - feeOf st.feeMultiplier tx).foldl satAdd128 st.tips ∧
+    st'.txs = l.foldl State.insertTx st.txs ∧
+    (∀ a ∈ l, (∃ mf, a.baseFee st.feeMultiplier = .ok mf ∧ mf ≤ a.fee) ∧
+      (a.kind = .faucet → st.network = .mainnet → env.isGrandfathered a.hash = true)) := by
+  intro l
+  induction l with
+  | nil =>
+    intro st st' h
+    rw [Outcome.foldlM'_nil_ok] at h; subst h
+    simp
+  | cons a rest ih =>
+    intro st st' h
+    rw [Outcome.foldlM'_cons_ok] at h
+    obtain ⟨st1, h1, h2⟩ := h
+    obtain ⟨hF, coins2, mf, hrm, hmf, hle, rfl⟩ := nextStep_iff.mp h1
+    obtain ⟨i1, i2, i3, i4, i5, i6, i7, i8, i9, i10, i11⟩ := ih _ _ h2
+    simp only [stepResult] at i1 i2 i3 i4 i5 i6 i7 i8 i9 i10 i11
+    have hfee : feeOf st.feeMultiplier a = mf := by simp [feeOf, hmf, valOf]
+    refine ⟨i1, i2, i3, i4, i5, i6, i7, ?_, ?_, ?_, ?_⟩
+    · rw [i8, List.map_cons, List.foldl_cons, hfee]
+    · rw [i9, List.map_cons, List.foldl_cons, hfee]
+    · rw [i10, List.foldl_cons]
+    · intro x hx
+      rcases List.mem_cons.mp hx with rfl | hx
+      · exact ⟨⟨mf, hmf, hle⟩, fun hk => (hF hk).2⟩
+      · exact i11 x hx
+
+/-- the pseudo-coin of every faucet transaction was absent when the second pass started -/
+theorem nextFold_absent (env : Env) (t : Bool) : ∀ (l : List Tx) (st st' : State),
+    Outcome.foldlM' (nextStep env t) st l = .ok st' →
+    (∀ f ∈ l, f.kind = .faucet → ∀ u ∈ l, markerOf env f ∉ u.inputs) →
+    ∀ f ∈ l, f.kind = .faucet → st.coins.getCoin (markerOf env f) = none := by
+  intro l
+  induction l with
+  | nil => intro st st' _ _ f hf; cases hf
+  | cons a rest ih =>
+    intro st st' h hni f hf hk
+    rw [Outcome.foldlM'_cons_ok] at h
+    obtain ⟨st1, h1, h2⟩ := h
+    rcases List.mem_cons.mp hf with rfl | hf'
+    · exact ((nextStep_iff.mp h1).1 hk).1
+    · have := ih st1 st' h2
+        (fun f hf hk u hu => hni f (List.mem_cons_of_mem _ hf) hk u (List.mem_cons_of_mem _ hu)) f hf' hk
+      rw [getCoin_nextStep h1, if_neg (hni f hf hk a List.mem_cons_self)] at this
+      split at this
+      · cases this
+      · exact this
+
+/-- static side conditions of the second pass (all invariant under permutation) -/
+structure NextStatic (env : Env) (s : State) (l : List Tx) : Prop where
+  nodup : l.Nodup
+  dist : ∀ a ∈ l, ∀ f ∈ l, insertsMarker env a = true → f.kind = .faucet →
+    markerOf env a = markerOf env f → f = a
+  notInp : ∀ f ∈ l, f.kind = .faucet → ∀ u ∈ l, markerOf env f ∉ u.inputs
+  netOk : ∀ f ∈ l, f.kind = .faucet → s.network = .mainnet → env.isGrandfathered f.hash = true
+  fee : ∀ a ∈ l, ∃ mf, a.baseFee s.feeMultiplier = .ok mf ∧ mf ≤ a.fee
+
+theorem NextStatic.tail {env : Env} {s : State} {a : Tx} {rest : List Tx}
+    (h : NextStatic env s (a :: rest)) : NextStatic env s rest where
+  nodup := (List.nodup_cons.mp h.nodup).2
+  dist := fun x hx f hf => h.dist x (List.mem_cons_of_mem _ hx) f (List.mem_cons_of_mem _ hf)
+  notInp := fun f hf hk u hu => h.notInp f (List.mem_cons_of_mem _ hf) hk u (List.mem_cons_of_mem _ hu)
+  netOk := fun f hf => h.netOk f (List.mem_cons_of_mem _ hf)
+  fee := fun x hx => h.fee x (List.mem_cons_of_mem _ hx)
+
+theorem NextStatic.perm {env : Env} {s : State} {l l' : List Tx} (hp : l.Perm l')
+    (h : NextStatic env s l) : NextStatic env s l' where
+  nodup := h.nodup.perm hp
+  dist := fun x hx f hf => h.dist x (hp.mem_iff.mpr hx) f (hp.mem_iff.mpr hf)
+  notInp := fun f hf hk u hu => h.notInp f (hp.mem_iff.mpr hf) hk u (hp.mem_iff.mpr hu)
+  netOk := fun f hf => h.netOk f (hp.mem_iff.mpr hf)
+  fee := fun x hx => h.fee x (hp.mem_iff.mpr hx)
+
+/-- the invariant of the second pass -/
+structure NextInv (env : Env) (s : State) (st : State) (l : List Tx) : Prop where
+  net : st.network = s.network
+  height : st.height = s.height
+  fm : st.feeMultiplier = s.feeMultiplier
+  counts : s.tip906 = true → CountsOk st.coins
+  absent : ∀ f ∈ l, f.kind = .faucet → st.coins.getCoin (markerOf env f) = none
+
+theorem insertsMarker_faucet {env : Env} {tx : Tx} (h : insertsMarker env tx = true) : tx.kind = .faucet := by
+  simp [insertsMarker] at h; exact h.1
+
+/-- under the side conditions the second pass accepts, in any order, and keeps the count invariant -/
+theorem nextFold_accepts (env : Env) (s : State) : ∀ (l : List Tx) (st : State),
+    NextStatic env s l → NextInv env s st l →
+    ∃ st', Outcome.foldlM' (nextStep env s.tip906) st l = .ok st' ∧ (s.tip906 = true → CountsOk st'.coins) := by
+  intro l
+  induction l with
+  | nil => intro st _ hinv; exact ⟨st, rfl, hinv.counts⟩
+  | cons a rest ih =>
+    intro st hst hinv
+    have hF : FaucetOk env st a := fun hk =>
+      ⟨hinv.absent a List.mem_cons_self hk, fun hn => hst.netOk a List.mem_cons_self hk (hinv.net ▸ hn)⟩
+    have htip : st.tip906 = s.tip906 := tip906_eq hinv.net hinv.height
+    have hc1 : s.tip906 = true → CountsOk (fcoins env st a) := by
+      intro ht
+      unfold fcoins
+      split
+      · rename_i hm
+        rw [htip, ht]
+        exact C20_insert_fresh _ _ _ (hinv.counts ht)
+          (hinv.absent a List.mem_cons_self (insertsMarker_faucet hm))
+      · exact hinv.counts ht
+    obtain ⟨coins2, hrm, hc2⟩ : ∃ coins2, rmFold s.tip906 (fcoins env st a) a.inputs = .ok coins2 ∧
+        (s.tip906 = true → CountsOk coins2) := by
+      cases ht : s.tip906 with
+      | false =>
+        obtain ⟨c, hc, -⟩ := rmFold_false a.inputs (fcoins env st a)
+        exact ⟨c, hc, fun h => by cases h⟩
+      | true =>
+        obtain ⟨c, hc, hok⟩ := rmFold_true a.inputs (fcoins env st a) (hc1 ht)
+        exact ⟨c, hc, fun _ => hok⟩
+    obtain ⟨mf, hmf, hle⟩ := hst.fee a List.mem_cons_self
+    have hstep : nextStep env s.tip906 st a = .ok (stepResult st a coins2 mf) :=
+      nextStep_iff.mpr ⟨hF, coins2, mf, hrm, by rw [hinv.fm]; exact hmf, hle, rfl⟩
+    have hinv2 : NextInv env s (stepResult st a coins2 mf) rest := by
+      refine ⟨hinv.net, hinv.height, hinv.fm, hc2, ?_⟩
+      intro f hf hk
+      have hfa : f ≠ a := by
+        intro e; subst e
+        exact (List.nodup_cons.mp hst.nodup).1 hf
+      rw [getCoin_nextStep hstep,
+        if_neg (hst.notInp f (List.mem_cons_of_mem _ hf) hk a List.mem_cons_self), if_neg ?_]
+      · exact hinv.absent f (List.mem_cons_of_mem _ hf) hk
+      · rintro ⟨hm, he⟩
+        exact hfa (hst.dist a List.mem_cons_self f (List.mem_cons_of_mem _ hf) hm hk he.symm)
+    obtain ⟨st', hfold, hc'⟩ := ih _ hst.tail hinv2
+    exact ⟨st', (Outcome.foldlM'_cons_ok _ _ _ _ _).mpr ⟨_, hstep, hfold⟩, hc'⟩
+
+theorem fcoins_counts_false {env : Env} {st : State} {tx : Tx} (h : st.tip906 = false) :
+    (fcoins env st tx).counts = st.coins.counts := by
+  unfold fcoins
+  split
+  · simp [CoinMap.insertCoin, h]
+  · rfl
+
+/-- before TIP-906 the second pass never touches the counts -/
+theorem nextFold_counts_false (env : Env) : ∀ (l : List Tx) (st st' : State), st.tip906 = false →
+    Outcome.foldlM' (nextStep env false) st l = .ok st' → st'.coins.counts = st.coins.counts := by
+  intro l
+  induction l with
+  | nil => intro st st' _ h; rw [Outcome.foldlM'_nil_ok] at h; subst h; rfl
+  | cons a rest ih =>
+    intro st st' ht h
+    rw [Outcome.foldlM'_cons_ok] at h
+    obtain ⟨st1, h1, h2⟩ := h
+    obtain ⟨-, coins2, mf, hrm, -, -, rfl⟩ := nextStep_iff.mp h1
+    have ht1 : State.tip906 (stepResult st a coins2 mf) = false := by
+      rw [← ht]; exact tip906_eq rfl rfl
+    rw [ih _ _ ht1 h2]
+    obtain ⟨c, hc, hcc⟩ := rmFold_false a.inputs (fcoins env st a)
+    rw [hrm] at hc
+    cases hc
+    simp only [stepResult]
+    rw [hcc, fcoins_counts_false ht]
+
+/-! the first pass -/
+
+theorem insFold_counts_true (rel : Relevant) : ∀ (L : List CoinID) (coins : CoinMap), CountsOk coins →
+    (∀ id ∈ L, coins.getCoin id = none ∨ coins.getCoin id = rel.get id) →
+    CountsOk (L.foldl (insStep rel true) coins) := by
+  intro L
+  induction L with
+  | nil => intro coins h _; exact h
+  | cons id rest ih =>
+    intro coins h hfresh
+    rw [List.foldl_cons]
+    apply ih
+    · unfold insStep
+      cases hr : rel.get id with
+      | none => exact h
+      | some cd =>
+        simp only
+        rcases hfresh id List.mem_cons_self with h0 | h0
+        · exact C20_insert_fresh _ _ _ h h0
+        · rw [hr] at h0
+          exact C20_insert_overwrite _ _ _ cd h h0 rfl
+    · intro x hx
+      rw [getCoin_insStep]
+      by_cases hxi : x = id
+      · subst hxi
+        rw [if_pos rfl]
+        cases hr : rel.get x with
+        | none => simpa [hr] using hfresh x List.mem_cons_self
+        | some cd => exact Or.inr rfl
+      · rw [if_neg hxi]
+        exact hfresh x (List.mem_cons_of_mem _ hx)
+
+theorem insFold_counts_false (rel : Relevant) : ∀ (L : List CoinID) (coins : CoinMap),
+    (L.foldl (insStep rel false) coins).counts = coins.counts := by
+  intro L
+  induction L with
+  | nil => intro coins; rfl
+  | cons id rest ih =>
+    intro coins
+    rw [List.foldl_cons, ih]
+    unfold insStep
+    cases rel.get id with
+    | none => rfl
+    | some cd => simp [CoinMap.insertCoin]
+
+theorem mem_outputIds {txs : List Tx} {k : CoinID} (h : k ∈ outputIds txs) :
+    ∃ tx ∈ txs, ∃ i, k = { txhash := tx.hash, index := i } := by
+  simp only [outputIds, List.mem_flatMap, List.mem_map] at h
+  obtain ⟨tx, htx, i, -, hk⟩ := h
+  exact ⟨tx, htx, i % 256, hk.symm⟩
+
+theorem outputIds_perm {txs txs' : List Tx} (hp : txs.Perm txs') : (outputIds txs).Perm (outputIds txs') :=
+  hp.flatMap_right _
+
+theorem markerIds_mem_perm {env : Env} {txs txs' : List Tx} (hp : txs.Perm txs') (k : CoinID) :
+    k ∈ markerIdsOf env txs' ↔ k ∈ markerIdsOf env txs := by
+  rw [mem_markerIdsOf, mem_markerIdsOf]
+  exact ⟨fun ⟨t, ht, h⟩ => ⟨t, hp.mem_iff.mpr ht, h⟩, fun ⟨t, ht, h⟩ => ⟨t, hp.mem_iff.mp ht, h⟩⟩
+
+/-! ### assembling the batch -/
+
+/-- standing assumptions of C03 (unbundled copy of `PermPre`) -/
+structure Pre (env : Env) (s : State) (txs : List Tx) : Prop where
+  hashes : (txs.map (·.hash)).Nodup
+  markers : ∀ t ∈ txs, t.kind = .faucet → env.isGrandfathered t.hash = false →
+              (∀ u ∈ txs, (⟨env.fdp t.hash, 0⟩ : CoinID) ∉ u.inputs ∧ env.fdp t.hash ≠ u.hash) ∧
+              (∀ u ∈ txs, u.kind = .faucet → env.fdp u.hash = env.fdp t.hash → u = t)
+  gfMarkers : ∀ t ∈ txs, t.kind = .faucet → env.isGrandfathered t.hash = true →
+              ∀ u ∈ txs, (⟨env.fdp t.hash, 0⟩ : CoinID) ∉ u.inputs
+  fresh : ∀ t ∈ txs, ∀ i, s.coins.getCoin ⟨t.hash, i⟩ = none
+  counts : CountsOk s.coins
+  sorted : s.txs.Pairwise TxLt
+
+theorem Pre.perm {env : Env} {s : State} {txs txs' : List Tx} (hp : txs.Perm txs')
+    (h : Pre env s txs) : Pre env s txs' where
+  hashes := (hp.map _).nodup_iff.mp h.hashes
+  markers := fun t ht hk hb =>
+    ⟨fun u hu => (h.markers t (hp.mem_iff.mpr ht) hk hb).1 u (hp.mem_iff.mpr hu),
+     fun u hu => (h.markers t (hp.mem_iff.mpr ht) hk hb).2 u (hp.mem_iff.mpr hu)⟩
+  gfMarkers := fun t ht hk hb u hu => h.gfMarkers t (hp.mem_iff.mpr ht) hk hb u (hp.mem_iff.mpr hu)
+  fresh := fun t ht => h.fresh t (hp.mem_iff.mpr ht)
+  counts := h.counts
+  sorted := h.sorted
+
+theorem Pre.notInp {env : Env} {s : State} {txs : List Tx} (h : Pre env s txs) :
+    ∀ f ∈ txs, f.kind = .faucet → ∀ u ∈ txs, markerOf env f ∉ u.inputs := by
+  intro f hf hk u hu
+  by_cases hb : env.isGrandfathered f.hash = true
+  · exact h.gfMarkers f hf hk hb u hu
+  · exact ((h.markers f hf hk (by simpa using hb)).1 u hu).1
+
+theorem Pre.dist {env : Env} {s : State} {txs : List Tx} (h : Pre env s txs) :
+    ∀ a ∈ txs, ∀ f ∈ txs, insertsMarker env a = true → f.kind = .faucet →
+      markerOf env a = markerOf env f → f = a := by
+  intro a ha f hf hm hk he
+  simp only [insertsMarker, Bool.and_eq_true, decide_eq_true_eq, Bool.not_eq_true'] at hm
+  simp only [markerOf, CoinID.mk.injEq, and_true] at he
+  exact (h.markers a ha hm.1 hm.2).2 f hf hk he.symm
+
+theorem Pre.hm1 {env : Env} {s : State} {txs : List Tx} (h : Pre env s txs) :
+    ∀ m ∈ markerIdsOf env txs, m ∉ txs.flatMap (·.inputs) := by
+  intro m hm hin
+  obtain ⟨tx, htx, hins, rfl⟩ := mem_markerIdsOf.mp hm
+  obtain ⟨u, hu, hmu⟩ := List.mem_flatMap.mp hin
+  exact h.notInp tx htx (insertsMarker_faucet hins) u hu hmu
+
+/-- the state the second pass starts from -/
+def startState (s : State) (coins : CoinMap) : State := { s with coins := coins }
+
+theorem createNextState_eq' (env : Env) (s : State) (txs : List Tx) (rel : Relevant) (t : Bool) :
+    createNextState env s txs rel t =
+      Outcome.foldlM' (nextStep env t) (startState s ((outputIds txs).foldl (insStep rel t) s.coins)) txs :=
+  createNextState_eq env s txs rel t
+
+theorem createNext_getCoin {env : Env} {s next : State} {txs : List Tx} {rel : Relevant} {t : Bool}
+    (h : createNextState env s txs rel t = .ok next)
+    (hm1 : ∀ m ∈ markerIdsOf env txs, m ∉ txs.flatMap (·.inputs)) (k : CoinID) :
+    next.coins.getCoin k =
+      if k ∈ txs.flatMap (·.inputs) then none
+      else if k ∈ markerIdsOf env txs then some faucetMarker
+      else if k ∈ outputIds txs then (match rel.get k with | some c => some c | none => s.coins.getCoin k)
+      else s.coins.getCoin k := by
+  rw [createNextState_eq'] at h
+  rw [getCoin_nextFold env t txs _ _ h hm1 k]
+  simp only [startState]
+  rw [getCoin_insFold]
+  rfl
+
+theorem createNext_counts_false {env : Env} {s next : State} {txs : List Tx} {rel : Relevant}
+    (ht : s.tip906 = false) (h : createNextState env s txs rel s.tip906 = .ok next) :
+    next.coins.counts = s.coins.counts := by
+  rw [ht, createNextState_eq'] at h
+  have ht0 : (startState s ((outputIds txs).foldl (insStep rel false) s.coins)).tip906 = false := by
+    rw [← ht]; exact tip906_eq rfl rfl
+  rw [nextFold_counts_false env txs _ _ ht0 h]
+  simp only [startState]
+  rw [insFold_counts_false]
+
+theorem createNext_perm {env : Env} {s next : State} {txs txs' : List Tx} {rel rel' : Relevant}
+    (hp : txs.Perm txs') (hpre : Pre env s txs) (hrel : ∀ k, rel'.get k = rel.get k)
+    (h : createNextState env s txs rel s.tip906 = .ok next) :
+    ∃ next', createNextState env s txs' rel' s.tip906 = .ok next' ∧
+      (∀ k, next.coins.getCoin k = next'.coins.getCoin k) ∧
+      (∀ a, next.coins.coinCount a = next'.coins.coinCount a) ∧
+      next.txs = next'.txs ∧ next.feePool = next'.feePool ∧ next.tips = next'.tips ∧
+      next.feeMultiplier = next'.feeMultiplier ∧ next.pools = next'.pools ∧
+      next.history = next'.history ∧ next.height = next'.height ∧ next.network = next'.network ∧
+      next.stakes = next'.stakes := by
+  have hpre' : Pre env s txs' := hpre.perm hp
+  have h0 := h
+  rw [createNextState_eq'] at h0
+  obtain ⟨i1, i2, i3, i4, i5, i6, i7, i8, i9, i10, i11⟩ := nextFold_info env _ txs _ _ h0
+  simp only [startState] at i1 i2 i3 i4 i5 i6 i7 i8 i9 i10 i11
+  have hstat : NextStatic env s txs :=
+    ⟨nodup_of_hashes hpre.hashes, hpre.dist, hpre.notInp, fun f hf hk => (i11 f hf).2 hk,
+      fun a ha => (i11 a ha).1⟩
+  have habs := nextFold_absent env _ txs _ _ h0 hpre.notInp
+  -- the two start states hold the same coins
+  have hfreshIds : ∀ (l : List Tx), (∀ t ∈ l, ∀ i, s.coins.getCoin ⟨t.hash, i⟩ = none) →
+      ∀ (r : Relevant), ∀ id ∈ outputIds l, s.coins.getCoin id = none ∨ s.coins.getCoin id = r.get id := by
+    intro l hl r id hid
+    obtain ⟨tx, htx, i, rfl⟩ := mem_outputIds hid
+    exact Or.inl (hl tx htx i)
+  have hstart : ∀ k, ((outputIds txs').foldl (insStep rel' s.tip906) s.coins).getCoin k =
+      ((outputIds txs).foldl (insStep rel s.tip906) s.coins).getCoin k := by
+    intro k
+    rw [getCoin_insFold, getCoin_insFold, hrel]
+    have : k ∈ outputIds txs' ↔ k ∈ outputIds txs := (outputIds_perm hp).mem_iff.symm
+    simp only [this]
+  have hinv0 : NextInv env s (startState s ((outputIds txs).foldl (insStep rel s.tip906) s.coins)) txs := by
+    refine ⟨rfl, rfl, rfl, ?_, habs⟩
+    intro ht
+    simp only [startState]
+    rw [ht]
+    exact insFold_counts_true rel _ _ hpre.counts (hfreshIds txs hpre.fresh rel)
+  have hinv0' : NextInv env s (startState s ((outputIds txs').foldl (insStep rel' s.tip906) s.coins)) txs' := by
+    refine ⟨rfl, rfl, rfl, ?_, ?_⟩
+    · intro ht
+      simp only [startState]
+      rw [ht]
+      exact insFold_counts_true rel' _ _ hpre.counts (hfreshIds txs' hpre'.fresh rel')
+    · intro f hf hk
+      simp only [startState]
+      rw [hstart]
+      exact habs f (hp.mem_iff.mpr hf) hk
+  obtain ⟨next', hfold', hc'⟩ := nextFold_accepts env s txs' _ (hstat.perm hp) hinv0'
+  obtain ⟨next1, hfold1, hc1⟩ := nextFold_accepts env s txs _ hstat hinv0
+  rw [h0] at hfold1
+  cases hfold1
+  have h' : createNextState env s txs' rel' s.tip906 = .ok next' := by
+    rw [createNextState_eq']; exact hfold'
+  obtain ⟨j1, j2, j3, j4, j5, j6, j7, j8, j9, j10, -⟩ := nextFold_info env _ txs' _ _ hfold'
+  simp only [startState] at j1 j2 j3 j4 j5 j6 j7 j8 j9 j10
+  have hcoins : ∀ k, next.coins.getCoin k = next'.coins.getCoin k := by
+    intro k
+    rw [createNext_getCoin h hpre.hm1 k, createNext_getCoin h' hpre'.hm1 k, hrel]
+    have e1 : k ∈ txs'.flatMap (·.inputs) ↔ k ∈ txs.flatMap (·.inputs) := (hp.flatMap_right _).mem_iff.symm
+    have e2 : k ∈ outputIds txs' ↔ k ∈ outputIds txs := (outputIds_perm hp).mem_iff.symm
+    simp only [e1, e2, markerIds_mem_perm hp]
+  refine ⟨next', h', hcoins, ?_, ?_, ?_, ?_, ?_, ?_, ?_, ?_, ?_, ?_⟩
+  · intro a
+    cases ht : s.tip906 with
+    | true => exact C20_counts_determined _ _ (hc1 ht) (hc' ht) hcoins a
+    | false =>
+      simp only [CoinMap.coinCount]
+      rw [createNext_counts_false ht h, createNext_counts_false ht h']
+  · rw [i10, j10]; exact foldl_insertTx_perm hp hpre.sorted hpre.hashes
+  · rw [i8, j8]; exact foldl_satAdd_perm (hp.map _) _
+  · rw [i9, j9]; exact foldl_satAdd_perm (hp.map _) _
+  · rw [i3, j3]
+  · rw [i5, j5]
+  · rw [i4, j4]
+  · rw [i2, j2]
+  · rw [i1, j1]
+  · rw [i6, j6]
+
+/-! ### phase 6: stakes -/
+
+theorem stakeFold_get (ns : AList Hash StakeDoc) (base : StakeSet) (k : Hash) :
+    (ns.reverse.foldl (fun st e => StakeSet.addStake st e.1 e.2) base).getStake k =
+      (ns.get k).or (base.get k) := by
+  rw [List.foldl_reverse]
+  induction ns with
+  | nil => simp [AList.get, StakeSet.getStake]
+  | cons e rest ih =>
+    obtain ⟨k', v⟩ := e
+    simp only [List.foldr_cons, StakeSet.getStake, StakeSet.addStake] at ih ⊢
+    by_cases h : k' = k
+    · subst h; rw [AList.get_set_self]; simp [AList.get_cons]
+    · have h' : k ≠ k' := fun h2 => h h2.symm
+      rw [AList.get_set_ne _ _ h', ih]; simp [AList.get_cons, h]
+
+/-- the state `applyBatch` returns -/
+def finish (next : State) (sp : Nat) (ns : AList Hash StakeDoc) : State :=
+  { next with doscSpeed := sp,
+              stakes := ns.reverse.foldl (fun st e => StakeSet.addStake st e.1 e.2) next.stakes }
+
+theorem applyBatch_iff {env : Env} {s s' : State} {txs : List Tx} {fb : Header} :
+    applyBatch env s txs fb = .ok s' ↔
+      ∃ rel ns sp next, loadRelevantCoins s txs = .ok rel ∧ loadStakeInfo s txs = .ok ns ∧
+        Outcome.forM' (fun tx => checkTxValidity env s (lastHeaderOf s fb) tx rel ns) txs = .ok () ∧
+        speedFold env s rel txs = .ok sp ∧ createNextState env s txs rel s.tip906 = .ok next ∧
+        s' = finish next sp ns := by
+  simp only [applyBatch, Outcome.bind_eq_ok]
+  constructor
+  · rintro ⟨rel, h1, ns, h2, u, h3, sp, h4, next, h5, h6⟩
+    cases h6
+    exact ⟨rel, ns, sp, next, h1, h2, h3, h4, h5, rfl⟩
+  · rintro ⟨rel, ns, sp, next, h1, h2, h3, h4, h5, rfl⟩
+    exact ⟨rel, h1, ns, h2, (), h3, sp, h4, next, h5, rfl⟩
+
+/-- same observable content (unbundled copy of `BatchEquiv`) -/
+structure Equiv (a b : State) : Prop where
+  coins : ∀ id, a.coins.getCoin id = b.coins.getCoin id
+  counts : ∀ h, a.coins.coinCount h = b.coins.coinCount h
+  stakes : ∀ k, a.stakes.getStake k = b.stakes.getStake k
+  txs : a.txs = b.txs
+  feePool : a.feePool = b.feePool
+  tips : a.tips = b.tips
+  feeMultiplier : a.feeMultiplier = b.feeMultiplier
+  doscSpeed : a.doscSpeed = b.doscSpeed
+  pools : a.pools = b.pools
+  history : a.history = b.history
+  height : a.height = b.height
+  network : a.network = b.network
+
+theorem perm_main {env : Env} {s s₁ : State} {txs txs' : List Tx} {fb : Header} (hp : txs.Perm txs')
+    (hpre : Pre env s txs) (h : applyBatch env s txs fb = .ok s₁) :
+    ∃ s₂, applyBatch env s txs' fb = .ok s₂ ∧ Equiv s₁ s₂ := by
+  obtain ⟨rel, ns, sp, next, h1, h2, h3, h4, h5, rfl⟩ := applyBatch_iff.mp h
+  have hinj := hashInj_of_nodup hpre.hashes
+  obtain ⟨rel', h1', hrel⟩ := loadRel_perm hp hinj h1
+  obtain ⟨ns', h2', hns⟩ := loadStake_perm hp hinj h2
+  have h3' : Outcome.forM' (fun tx => checkTxValidity env s (lastHeaderOf s fb) tx rel' ns') txs' = .ok () := by
+    rw [Outcome.forM'_eq_ok] at h3 ⊢
+    intro a ha
+    rw [checkTxValidity_congr env s _ a hrel hns]
+    exact h3 a (hp.mem_iff.mpr ha)
+  have h4' := speedFold_perm hp hrel h4
+  obtain ⟨next', h5', c1, c2, c3, c4, c5, c6, c7, c8, c9, c10, c11⟩ := createNext_perm hp hpre hrel h5
+  refine ⟨finish next' sp ns', applyBatch_iff.mpr ⟨rel', ns', sp, next', h1', h2', h3', h4', h5', rfl⟩, ?_⟩
+  refine ⟨c1, c2, ?_, c3, c4, c5, c6, rfl, c7, c8, c9, c10⟩
+  intro k
+  simp only [finish]
+  rw [stakeFold_get, stakeFold_get, hns, c11]
+
+end C3
 end Mel
